@@ -163,6 +163,9 @@ CM_ScalarsRecorded(o) == o.scalarsOK
 TM_NearOne(o)  == o.nearOne
 TM_ESS(o)      == o.essPost >= cfg.nTotal
 TM_Evidence(o) == o.evid = o.evidAt
+\* the number of calls reported when run() returns = calls reported when it was entered + the points at which the user's likelihood
+\* was evaluated in between (also outside the pipeline steps: while resuming, after the last commit)
+TM_CallsExact(o) == o.callsReported = o.callsSeen
 
 -----------------------------------------------------------------------------
 (* Clause tables: the named clauses of each action as a record of booleans   *)
@@ -187,7 +190,7 @@ ME_Clauses(o) == [ME_Slots |-> ME_Slots(o), ME_Calls |-> ME_Calls(o), ME_Swept |
 CM_Clauses(o) == [CM_Append |-> CM_Append(o), CM_OnePerKey |-> CM_OnePerKey(o), CM_PrefixSame |-> CM_PrefixSame(o),
                   CM_Coherent |-> CM_Coherent(o), CM_NoInf |-> CM_NoInf(o), CM_BlobsVisible |-> CM_BlobsVisible(o), CM_ScalarsRecorded |-> CM_ScalarsRecorded(o),
                   CallsExact |-> calls = evals]
-TM_Clauses(o) == [TM_NearOne |-> TM_NearOne(o), TM_ESS |-> TM_ESS(o), TM_Evidence |-> TM_Evidence(o)]
+TM_Clauses(o) == [TM_NearOne |-> TM_NearOne(o), TM_ESS |-> TM_ESS(o), TM_Evidence |-> TM_Evidence(o), TM_CallsExact |-> TM_CallsExact(o)]
 
 All(c) == \A n \in DOMAIN c : c[n]
 Failing(c) == {n \in DOMAIN c : ~c[n]}
